@@ -5,12 +5,18 @@
 package main
 
 import (
+	"bytes"
+	"encoding/json"
 	"fmt"
 	"math"
 	"os"
 
 	"github.com/Comcast/rulio/core"
+	"github.com/Comcast/rulio/service"
+	"github.com/Comcast/rulio/sys"
 
+	"verif/lib/cronner"
+	"verif/lib/drv"
 	"verif/lib/gen"
 	"verif/lib/ref"
 	"verif/lib/rep"
@@ -208,28 +214,106 @@ func judge(r *rep.Report, c tcase) {
 		return
 	}
 	got := ref.CanonSet(toB(bss))
-	if ref.SameSet(got, want) {
-		if nontrivial && r.WantSample() {
-			r.Sample(rep.J{"pattern": c.P, "data": c.D, "initial": c.Init, "typed_mode": c.Mode, "bindings": got})
+	if verdict(r, c, got, want, "core.Match") && nontrivial && r.WantSample() {
+		r.Sample(rep.J{"pattern": c.P, "data": c.D, "initial": c.Init, "typed_mode": c.Mode, "bindings": got})
+	}
+	// the two other places where users reach the matcher: the service's match
+	// utility and Env.match inside scripts (plain JSON maps, no initial bindings)
+	if _, pm := c.P.(map[string]interface{}); pm && len(c.Init) == 0 && c.Mode == 0 {
+		if _, dm := c.D.(map[string]interface{}); dm {
+			viaCount++
+			if viaCount%7 == 0 {
+				judgeVia(r, c, want)
+			}
 		}
-		return
+	}
+}
+
+var viaCount int
+
+// verdict compares one observed set of bindings with the reference; true = agreed.
+func verdict(r *rep.Report, c tcase, got, want []string, via string) bool {
+	if ref.SameSet(got, want) {
+		return true
 	}
 	// relaxed model for the known sheens behaviour
 	if ref.HasRepeatedVar(c.P, c.Init) {
 		loose := ref.CanonSet(ref.MatchLoose(c.P, c.D, c.Init))
 		if ref.Subset(want, got) && ref.Subset(got, loose) {
-			r.Violate("c05.repeated-var-structured", "a repeated variable was accepted on values that are not equal (sheens partial-match comparison)", rep.J{"case": c, "got": got, "want": want})
-			return
+			r.Violate("c05.repeated-var-structured", "a repeated variable was accepted on values that are not equal (sheens partial-match comparison)", rep.J{"case": c, "got": got, "want": want, "via": via})
+			return false
 		}
 	}
-	what := "core.Match disagrees with the reference matcher"
+	what := via + " disagrees with the reference matcher"
 	if !ref.Subset(want, got) {
 		what += " (a genuine match is missing)"
 	}
 	if !ref.Subset(got, want) {
 		what += " (a returned binding is not a genuine match)"
 	}
-	r.Violate("", what, rep.J{"case": c, "got": got, "want": want})
+	r.Violate("", what, rep.J{"case": c, "got": got, "want": want, "via": via})
+	return false
+}
+
+var (
+	viaSvc *service.Service
+	viaLoc *core.Location
+)
+
+func bindingsFromJSON(js string) ([]string, error) {
+	var arr []map[string]interface{}
+	if err := json.Unmarshal([]byte(js), &arr); err != nil {
+		return nil, err
+	}
+	bs := make([]ref.B, len(arr))
+	for i, m := range arr {
+		bs[i] = ref.B(m)
+	}
+	return ref.CanonSet(bs), nil
+}
+
+func judgeVia(r *rep.Report, c tcase, want []string) {
+	if viaSvc == nil {
+		s, err := drv.NewSys(drv.SysOpts{TTL: sys.Forever}, cronner.New(true))
+		if err != nil {
+			panic(err)
+		}
+		viaSvc = &service.Service{System: s}
+		viaLoc, err = drv.NewLoc("m", "indexed", drv.MustMem())
+		if err != nil {
+			panic(err)
+		}
+	}
+	r.Count("via_service_and_script", 1)
+	// service: /api/sys/util/match, the data once as `fact` and once as `event`
+	for _, dataKey := range []string{"fact", "event"} {
+		var out bytes.Buffer
+		_, err := viaSvc.ProcessRequest(drv.Ctx(), map[string]interface{}{"uri": "/api/sys/util/match", "pattern": ref.CloneMap(c.P.(map[string]interface{})), dataKey: ref.CloneMap(c.D.(map[string]interface{}))}, &out)
+		if err != nil {
+			r.Violate("", "/api/sys/util/match fails for an in-fragment input: "+err.Error(), rep.J{"case": c, "data_parameter": dataKey})
+			continue
+		}
+		got, err := bindingsFromJSON(out.String())
+		if err != nil {
+			r.Violate("", "/api/sys/util/match does not answer with a JSON array of bindings", rep.J{"case": c, "body": out.String()})
+			continue
+		}
+		verdict(r, c, got, want, "/api/sys/util/match ("+dataKey+")")
+	}
+	// script: Env.match(pattern, data)
+	pj, _ := json.Marshal(c.P)
+	dj, _ := json.Marshal(c.D)
+	v, err := viaLoc.RunJavascript(drv.Ctx(), "var norm = function(v){ if (v === undefined || v === null) return null; if (typeof v !== 'object') return v; var n = v.length; if (typeof n === 'number') { var a = []; for (var i = 0; i < n; i++) a.push(norm(v[i])); return a; } var o = {}; for (var k in v) o[k] = norm(v[k]); return o; }; JSON.stringify(norm(Env.match("+string(pj)+", "+string(dj)+")))", nil, nil, nil)
+	if err != nil {
+		r.Violate("", "Env.match fails for an in-fragment input: "+err.Error(), rep.J{"case": c})
+		return
+	}
+	got, err := bindingsFromJSON(fmt.Sprint(v))
+	if err != nil {
+		r.Violate("", "Env.match does not return an array of bindings", rep.J{"case": c, "value": fmt.Sprint(v)})
+		return
+	}
+	verdict(r, c, got, want, "Env.match")
 }
 
 // judgeBind: Bindings.Bind (the substitution queries use before matching) must
